@@ -96,7 +96,8 @@ def generate(ctx):
             else:
                 ops.append([nm] + [r.choice(univ) for _ in range(r.randint(0, 4))])
         yield {'cls': r.choice(['OrderedSet', 'QuerySet']), 'level': 'ptr', 'ops': ops}
-    # D-only: "replace the visited element" (removal of the visited element + addition of a fresh one inside the loop body)
+    # "replace the visited element" (removal of the visited element + addition of a fresh one inside the loop body); D, and K
+    # against the pointer model (OSetPtr.iterReplace / reversedReplace)
     rngr = ctx.rng.fork('rmadd')
     for i in range(ctx.pick(400, 6000)):
         r = rngr.fork(i)
@@ -398,7 +399,7 @@ def run_impl(case):
                 if orig != (before[::-1] if back else before):
                     fail('iter-remove-current', '%siteration that removes the visited element and adds a fresh one visited the '
                          'original elements %r, the set held %r' % ('REVERSE ' if back else '', orig, before))
-                res = []
+                res = list(visited)          # K: the pointer model runs the same loop (OSetPtr.iterReplace / reversedReplace)
                 gone = set(list(x for x in visited if x in args and x < 1000)[:len(added)])
                 expect = (bset - gone) | set(added)
                 oracle = [k for k in oracle if k in expect] + added
@@ -488,7 +489,14 @@ def _norm(x):
 
 def model_line(case):
     if case.get('fam') == 'rmadd':
-        return None            # D only: the models have no loop body that adds
+        # pointer model: the loop body needs the fresh base of the step (1000 + 10 * step index), sent as first argument
+        ops = []
+        for step, o in enumerate(case['ops']):
+            if o[0] in ('iter-rm-add', 'riter-rm-add'):
+                ops.append([Sym(o[0]), 1000 + 10 * step] + o[1:])
+            else:
+                ops.append([Sym(o[0])] + o[1:])
+        return dumps([Sym('osetp')] + ops)
     head = 'osetp' if case['level'] == 'ptr' else 'oset'
     # a rejected in-place union has taken in the elements its operand yielded before failing: for the model it is that union;
     # a backward iteration with removal visits the same elements and leaves the same set as the forward one: on the abstract
